@@ -22,6 +22,24 @@ def pos_of(fn, node):
     return None
 
 
+def any_pos(fn, node):
+    """position of node, or of its first sub-expression that is a CFG element
+    (conditions such as `a && b` are terminators, not elements)."""
+    p = fn.elem_pos().get(node["id"])
+    if p is not None:
+        return p
+    best = None
+    for x in node.walk():
+        q = fn.elem_pos().get(x["id"])
+        if q is not None:
+            key = (-q[0], q[1])
+            if best is None or key < best[0]:
+                best = (key, q)
+    if best:
+        return best[1]
+    return pos_of(fn, node)
+
+
 def term_pos(fn, bid):
     return (bid, len(fn.blocks[bid].raw_elems))
 
@@ -83,6 +101,8 @@ def path_exists(fn, src, dst_pred, avoid=lambda pos, elem: False, include_src=Fa
             j += 1
         if blocked:
             continue
+        if dst_pred((b, len(elems)), "TERM"):
+            return list(path)
         if b == fn.exit:
             if dst_pred((b, 0), "EXIT"):
                 return list(path)
